@@ -9,6 +9,8 @@ A unit template (contracts/<unit>.vrs) is Verus source with directive lines:
     //@ body-start      payload: inserted right after the body '{'   (ghost code only)
     //@ before N <txt>  payload: inserted before the line holding the N-th occurrence of <txt> (ghost only)
     //@ after N <txt>   payload: inserted after the line holding the N-th occurrence of <txt>  (ghost only)
+    //@ loop-end N / before-loop N / after-loop N   payload (ghost only) at the end of the body of / before / after loop N
+    //                  (structural anchors: robust against edits of individual statements)
     //@ ret <name>      rewrite `-> T` into `-> (<name>: T)`              (rule R9, names the result)
     //@ rewrite <rule> <count> "<from>" => "<to>"   textual rewrite inside the item, logged (rules R1..R8)
     //@ enumerate N [name]   rule R8: desugar `for (i, x) in E.enumerate()` (optionally naming the ghost iterator)
@@ -260,6 +262,26 @@ def _extract_item(unit, out, repo, rel, sel, subs, trel, vacuity):
                 repls.append((p, p + len(frm), to, tl, rule, frm))
         elif kw == "fields":
             pass
+        elif kw in ("loop-end", "before-loop", "after-loop"):
+            _lint_ghost(unit, pl, trel, tl)
+            if loops is None:
+                loops = rustlex.loops_in(sf, item)
+            k = int(args.split()[0])
+            if k < 1 or k > len(loops):
+                raise AnchorLost("loop %d of %s not found" % (k, sel))
+            kw_off, body_off = loops[k - 1]
+            ct = sf.ct
+            bo = [j for j in range(item.tok_lo, item.tok_hi) if ct[j].start == body_off][0]
+            bc = rustlex.match_close(ct, bo)
+            if kw == "loop-end":
+                ls = src.rfind("\n", 0, ct[bc].start) + 1
+                edits.append((ls, 3, payload_text(pl) + "\n", tl))
+            elif kw == "before-loop":
+                ls = src.rfind("\n", 0, kw_off) + 1
+                edits.append((ls, 0, payload_text(pl) + "\n", tl))
+            else:
+                le = src.find("\n", ct[bc].end)
+                edits.append((le + 1, 0, payload_text(pl) + "\n", tl))
         elif kw == "itername":
             # rule R12: `for x in E` -> `for x in <name>: E` (names Verus' ghost iterator; no executable effect)
             if loops is None:
